@@ -29,20 +29,22 @@ def run(ctx: Ctx):
         "multiple": "shape = ({shape}, states.shape[1])",
     }
     ctx.check(set(members) == set(want), "R14.b", f.key("members"), "Shape = dynamic | single | multiple", f"Shape members {sorted(members)} differ from {sorted(want)}", f.where())
-    from sa import te
+    from sa import av as _av
+
     from . import util
 
-    got = {}
-    for p_ in te.enumerate_paths(f.node.body):
-        if p_.exit != "return" or p_.exit_node.value is None:
-            continue
-        mem = [m for m in want for a, pol in p_.lits if pol and a.replace(" ", "") in (f"self._shape==Shape.{m}", f"Shape.{m}==self._shape")]
-        if len(mem) == 1:
-            got[mem[0]] = util.fstr(f, p_.exit_node.value)
+    # what _shape_info returns for each member: its value specialised to self._shape == <member>
+    v = util.value_of(ctx, f)
     p = f.params[1] if len(f.params) > 1 else "shape"
     for m, w in want.items():
         ww = w.replace("{shape}", "{" + p + "}")
-        ctx.check(got.get(m) == ww, "R14.b", f.key(f"branch::{m}"), f"{m}: `{ww}`", f"_shape_info for Shape.{m} emits {got.get(m)!r}, expected {ww!r} (the second axis of the result must be the batch axis states.shape[1])", f.where())
+        t = _av.renorm_deep(_av.subst(v, {("sym", "self._shape"): ("enum", "Shape", m, m)}))
+        key = f.key(f"branch::{m}")
+        if _av.has_unk(t) or t[0] == "if" or not _av._is_str(t):
+            ctx.undecided("R14.b", key, f"what _shape_info returns for Shape.{m} does not reduce to one text ({_av.show(t)[:80]})", f.where())
+            continue
+        got = _av.flatten(t).replace(_av.HO, "{").replace(_av.HC, "}")
+        ctx.check(got == ww, "R14.b", key, f"{m}: `{ww}`", f"_shape_info for Shape.{m} emits {got!r}, expected {ww!r} (the second axis of the result must be the batch axis states.shape[1])", f.where())
     for mname in ("monitor_values", "missing_values"):
         g = util.nff(ctx, cgc.methods[mname])
         tc = util.template_method_call(g)
